@@ -13,7 +13,7 @@ ParseCfgs == [side : {"parse"}, ps : {None} \cup Seqs(PM, MaxStack), app : {None
 WriteCfgs == [side : {"write"}, ps : {None} \cup Seqs(UM, MaxStack), app : {None}, ct : Containers]
         \cup [side : {"write"}, ps : {None}, app : Seqs(UM, MaxStack), ct : Containers]
         \cup [side : {"write"}, ps : Seqs(UM, 1), app : Seqs(UM, 1), ct : {"list"}]
-Kinds == {"none", "empty_list", "empty_tuple", "same", "other", "list2", "tuple2", "list3", "generator", "int", "str",
+Kinds == {"reused_list", "none", "empty_list", "empty_tuple", "same", "other", "list2", "tuple2", "list3", "generator", "int", "str",
           "list_with_nonblock", "dict_of_str", "object"}
 Typs == {"entry", "string", "preamble", "ecomment", "icomment"}
 SpliceLib == <<[id |-> "c0", typ |-> "icomment"], [id |-> "e1", typ |-> "entry"], [id |-> "s1", typ |-> "string"],
